@@ -954,3 +954,33 @@ def var_inits(view, name):
         elif view.upvars and view.place_expr(cs.dest) == ('var', name, ()):
             out.append((cs.bb, ('call', cs.nfn, tuple(cs.arg(i) for i in range(len(cs.args))), cs.bb)))
     return out
+
+
+def var_init_sites(view, name):
+    """Like var_inits but with the statement position: (bb, index, expr); a call's position is
+    after all statements of its block."""
+    out = []
+    for i, b in enumerate(view.blocks):
+        if b['cleanup']:
+            continue
+        for j, s in enumerate(b['stmts']):
+            if s['k'] != 'assign':
+                continue
+            if not s['lhs']['p']:
+                if view.varnames.get(s['lhs']['l']) == name:
+                    out.append((i, j, view.rvalue_expr(s['rv'], i)))
+            elif view.upvars and view.place_expr(s['lhs']) == ('var', name, ()):
+                out.append((i, j, view.rvalue_expr(s['rv'], i)))
+    for cs in view.calls(skip_log=False):
+        hit = (not cs.dest['p'] and view.varnames.get(cs.dest['l']) == name) or (cs.dest['p'] and view.upvars and view.place_expr(cs.dest) == ('var', name, ()))
+        if hit:
+            out.append((cs.bb, len(view.blocks[cs.bb]['stmts']), ('call', cs.nfn, tuple(cs.arg(i) for i in range(len(cs.args))), cs.bb)))
+    return out
+
+
+def happens_before(view, a, b):
+    """Site a = (bb, idx) is executed before site b on every path reaching b (same block: by
+    statement order; otherwise: block dominance)."""
+    if a[0] == b[0]:
+        return a[1] < b[1]
+    return view.dominates(a[0], b[0])
